@@ -182,7 +182,7 @@ theorem stepSpawn_G1 {r : Fin n} {s s' : St n} (h : G1 r s) (v p : Fin n) (hs : 
   unfold stepSpawn at hs
   split at hs
   · rename_i hg
-    obtain ⟨hav, hap, hvr, hvp, hqv, hov, hpend, hment, hnoch⟩ := hg
+    obtain ⟨hav, hap, hvr, hvp, hqv, hov, _, _, _, hpend, hment, hnoch⟩ := hg
     cases hs
     exact h.spawn v p hav hap hvr hvp hqv hov hpend hment hnoch rfl rfl rfl rfl rfl rfl rfl rfl
   · cases hs
@@ -191,7 +191,7 @@ theorem stepExit_G1 {r : Fin n} {s s' : St n} (h : G1 r s) (v : Fin n) (hs : ste
   unfold stepExit at hs
   split at hs
   · rename_i hg
-    obtain ⟨hav, hvr, _, hov, hqv, hsw, hcw, _, hnc, hclean⟩ := hg
+    obtain ⟨hav, hvr, _, hov, hqv, _, hsw, hcw, _, hnc, hclean⟩ := hg
     cases hs
     obtain ⟨p0, hp0, hp0a⟩ := h.par v hav hvr
     have hclean' : pendingTo (s.out p0) v = 0 ∧ (s.q p0).all (fun c => !mentions v c) = true := by
